@@ -577,14 +577,27 @@ def check_los(case, ctx):
                aa2.tolist())))
 
     names = ("h", "lat", "lon", "za", "aa")
+    if case.get("int_r"):
+        # integer-typed radius (the semi-major axes of ellipsoidmodels() are
+        # Python ints): whole metres, passed as int / int64 array
+        ctx.label("int-radius")
+
+        def radius(h):
+            if np.ndim(h) == 0 and not isinstance(h, np.ndarray):
+                return int(round(a)) + int(round(float(h)))
+            return (np.rint(np.asarray(h, float)).astype("int64")
+                    + int(round(a)))
+    else:
+        def radius(h):
+            return a + h
     if kind in ("scalar", "0d"):
         for i in range(len(case["lat"])):
             st_ = ("0d" if kind == "0d" else ("py", "np")[i % 2])
             v = [_mk([case[nm][i]], [], st_) for nm in names]
-            one(a + v[0], *v[1:])
+            one(radius(v[0]), *v[1:])
         return
     v = [_mk(case[nm], case["shapes"][nm], "py") for nm in names]
-    one(a + v[0], *v[1:])
+    one(radius(v[0]), *v[1:])
 
 
 def edge_angle(lo, hi, eps):
@@ -611,6 +624,7 @@ def los_cases(draw):
     case["ell"] = draw(st.sampled_from(ELLIPSOIDS))
     case["scale"] = draw(st.sampled_from([1.0, 1.0, 2.0, 0.125, 1e3, 1e-3,
                                           7.3]))
+    case["int_r"] = draw(st.integers(0, 4)) == 0
     return case
 
 
